@@ -230,6 +230,9 @@ type Schema struct {
 	Types []*TD
 }
 
+// CustomDirectiveSDL is declared in every generated schema; the reference executor ignores it.
+const CustomDirectiveSDL = "directive @tag(name: String, n: Int) on FIELD | INLINE_FRAGMENT | FRAGMENT_SPREAD"
+
 func (s *Schema) Type(n string) *TD {
 	for _, t := range s.Types {
 		if t.Name == n {
@@ -265,6 +268,8 @@ func ivSexp(iv IV) string {
 func (s *Schema) SDL() string {
 	var sb strings.Builder
 	sb.WriteString("schema { query: Query }\n")
+	// a custom executable directive with arguments (it survives normalisation, unlike @skip/@include)
+	sb.WriteString(CustomDirectiveSDL + "\n")
 	for _, t := range s.Types {
 		switch t.Kind {
 		case "scalar":
